@@ -96,6 +96,9 @@ type c01Case struct {
 	NotRun bool           `json:"not_run"`
 	Notes  []string       `json:"notes"`
 	Dump   string         `json:"dump,omitempty"` // goroutine dump taken when the case stalled
+	// source publishes made on the pipeline's own topic-0 GoChannel after it had been closed with
+	// messages still in flight downstream
+	LateOnClosed int `json:"late_on_closed"`
 
 	mu       sync.Mutex
 	calls    []int
@@ -432,7 +435,21 @@ func c01Run(rt *hookrt.Runtime, c *c01Case, stall time.Duration) {
 	}
 	closedPS := gochannel.NewGoChannel(cfg, logger)
 	closedPS.Close()
+	// With one GoChannel per topic the failing source publishes hit the pipeline's OWN topic-0
+	// Pub/Sub: it is closed while messages are still in flight further down (as soon as stage 0
+	// has acked everything it was given), and the late producers publish to that live-then-closed
+	// instance.  With one shared GoChannel that is not possible (closing it would stop the whole
+	// pipeline), a closed GoChannel of the same configuration stands in.
+	liveClose := !c.SharedPS && len(c.FailSrc) > 0
+	var deferred []int
 	publishSrc := func(lin int) {
+		if fail[lin] && liveClose {
+			c.mu.Lock()
+			deferred = append(deferred, lin) // published after topic 0's Pub/Sub has been closed
+			c.touch()
+			c.mu.Unlock()
+			return
+		}
 		if fail[lin] {
 			// a REAL failing source publish: the producer's Pub/Sub (a GoChannel with the same
 			// configuration) has been closed, Publish returns "Pub/Sub closed"; the message was never
@@ -552,6 +569,30 @@ func c01Run(rt *hookrt.Runtime, c *c01Case, stall time.Duration) {
 			idle = ticks
 		}
 		c.mu.Unlock()
+		if liveClose {
+			c.mu.Lock()
+			ready := len(deferred) > 0 && c.srcOpen == len(deferred) && c.accepted[0] == c.acked[0]
+			var late []int
+			if ready {
+				late, deferred = deferred, nil
+			}
+			c.mu.Unlock()
+			if ready {
+				pss[0].Close() // downstream topics may still be busy
+				for _, lin := range late {
+					err := pss[0].Publish(topic(0), c01Make(c01Msg{Lin: lin, Path: []int{}}))
+					c.mu.Lock()
+					if err == nil {
+						c.Notes = append(c.Notes, "Publish on a closed Pub/Sub returned nil")
+					}
+					c.srcOpen--
+					c.LateOnClosed++
+					c.touch()
+					c.mu.Unlock()
+				}
+				continue
+			}
+		}
 		if q {
 			// settle: a short grace period, then it must still hold with unchanged counts
 			time.Sleep(15 * time.Millisecond)
